@@ -77,6 +77,7 @@ pub struct Monitor {
     pub c14: Report,
     pub c15: Report,
     pub c16: Report,
+    pub pages: crate::pagemon::PageMon,
     gc_requests: u64,
     gc_starts: u64,
     pending_user_gc: HashMap<u64, u64>, // mutator -> gc_count at call
@@ -141,6 +142,7 @@ impl Monitor {
             opens_checked: 0,
             events: 0,
             c11: Report::new("C11"),
+            pages: crate::pagemon::PageMon::new(),
             gc_stw_pkts: 0,
             park_events: 0,
             c14: Report::new("C14"),
@@ -205,6 +207,9 @@ impl Monitor {
     }
 
     fn step(&mut self, e: &Event) {
+        if matches!(e.kind, mmtk::verif::EV_GRANT | mmtk::verif::EV_RELEASE | mmtk::verif::EV_PR_RESET | crate::world::EV_PR_SNAPSHOT) {
+            return self.pages.step(e);
+        }
         match e.kind {
             EV_SPAWN => {
                 self.nworkers = e.a as usize;
